@@ -3,6 +3,7 @@
 set -e
 cd "$(dirname "$0")"
 /venv/bin/python harness/py2coq.py "${VERIF_REPO:-/repo}/tinyflux/utils.py" coq/gen/UtilsGen.v || true
+/venv/bin/python harness/py2coq_valid.py "${VERIF_REPO:-/repo}/tinyflux/point.py" coq/gen/ValidGen.v || true
 cd coq
 coq_makefile -f _CoqProject -o Makefile
 timeout 3000 make -j16
